@@ -198,6 +198,13 @@ fn universe(section: &str, fs: &FsSpec, loaded: &Loaded, entry_index: usize) -> 
                     ("long", long.as_str()),
                     ("newline", "evil\nname.h"),
                     ("colon", "C:\\dir\\x.h:12:3"),
+                    ("dotdot", "../shared/common.h"),
+                    ("dotdot-deep", "a/../../x.h"),
+                    ("only-dotdot", ".."),
+                    ("dot", "./"),
+                    ("absolute", "/usr/include/x.h"),
+                    ("trailing-slash", "dir/"),
+                    ("unicode", "h\u{e9}ader \u{2603}.h"),
                 ] {
                     out.push((
                         format!("real_name({tag}) {f}"),
@@ -364,7 +371,8 @@ pub fn cases(ctx: &Ctx, section: &str, i: u64) -> Vec<Case> {
                 // hostile metadata and stale reads on generated trees
                 if r.chance(1, 4) && !base.pasted.is_empty() {
                     let f = r.pick(&base.pasted).clone();
-                    let name = ["", "main.rssl", "x\ny", "a:1:1"][r.below(4) as usize];
+                    let name = ["", "main.rssl", "x\ny", "a:1:1", "../up.h", "a/../../x.h", "..", "/abs.h"]
+                        [r.below(8) as usize];
                     t.faults
                         .push(Fault::new(FaultKind::RealName, Sel::File(f)).text(name));
                 }
